@@ -459,4 +459,34 @@ theorem reprioGuard_spec {w : World} {g : Nat} {gd : Guard} (hg : w.guards[g]? =
     simp only [guardEnqueued_eq hg hwf, hk, decide_false]
     rfl
 
+/-- what `cmb_process_priority_set` does for one awaited thing -/
+def prioAwaitStep (q : Pid) (v : Int) (w : World) (a : Await) : World :=
+  match a with
+  | .time h =>
+    match reprioritize w.ev h v with
+    | .ok ev' => { w with ev := ev' }
+    | .error f => w.fail s!"priority_set: timer event not scheduled: {f}"
+  | .guard g => reprioGuard w q v g
+  | _ => w
+
+def prioHeldStep (q : Pid) (v : Int) (w : World) (h : HoldRef) : World :=
+  match h with
+  | .pool pl =>
+    match w.pools[pl]? with
+    | some x =>
+      match HashHeap.reprioritize holder_queue_check x.holders (q + 1) 0 v with
+      | .ok h' => { w with pools := w.pools.set! pl { x with holders := h' } }
+      | .error f => w.fail s!"priority_set holder: {f}"
+    | none => w
+  | .res _ => w
+
+theorem prioSet_eq (w : World) (p q : Pid) (v : Int) (hq : q < w.procs.size) :
+    execCmd w p (.prioSet q v) =
+      (let w1 := w.modProc q fun y => { y with prio := v }
+       let w2 := (w1.proc q).awaits.foldl (prioAwaitStep q v) w1
+       ((w2.proc q).held.foldl (prioHeldStep q v) w2, .ret 0 "")) := by
+  have : ¬ q ≥ w.procs.size := Nat.not_le.2 hq
+  simp only [execCmd, this, if_false]
+  rfl
+
 end CimbaModel.Sim.S3
